@@ -70,3 +70,6 @@ Definition op_unmarshal_p (be : bool) (offset nfds : N) (tys : list ty) (buf : l
 (* VR: raw validation of every complete type of a signature in turn, starting at offset *)
 Definition op_validate (be : bool) (offset : N) (tys : list ty) (buf : list N) : outcome N :=
   do n <- validate_seq be buf tys offset; Ok (n - offset).
+
+(* SE: the specification applied to a wire-level value (descriptor leaves are indices) *)
+Definition op_spec (be : bool) (pos : N) (v : val) : list N * bool := (spec_enc be pos v, encodable be pos 0 v).
